@@ -14,6 +14,12 @@ Theorem c17_source_shape_ok : shape_ok gen_key_fields gen_key_literals gen_merge
 Proof. exact (eq_refl true). Qed.
 Print Assumptions c17_source_shape_ok.
 
+(* The package component of every unusedKey literal is a package PATH (res.Package.PkgPath): objects of different
+   packages can then never share a key, so key_collision_only_suppresses cannot drop a report across packages. *)
+Theorem c17_key_package_component_is_path : key_pkg_is_path gen_key_pkg_component = true.
+Proof. exact (eq_refl true). Qed.
+Print Assumptions c17_key_package_component_is_path.
+
 (* The executable colouring (recursive DFS with fuel S n, as SerializedGraph.color) computes exactly reachability
    from the root inside 0..n-1, for every graph; fuel is always sufficient. *)
 Theorem seenb_is_reachability : forall g x, seenb g x = true <-> seen g x.
